@@ -37,6 +37,10 @@ CHECKS = {
    technique="loom: exhaustive interleaving exploration of the real compio-driver/src/asyncify.rs (include!d; flume re-bound to a loom rendezvous channel, std::thread to loom)",
    text="Layer (a) of DESIGN §2/C17: 1-3 dispatcher threads (several runtimes sharing a pool) x thread_limit 1-2 with the drivers' retry loop, and worker retirement after the idle timeout followed by a late job. Oracle: every job body runs exactly once, a handed-back job is the same job, jobs running at once <= thread_limit at every point, a job after retirement still runs, no deadlock.",
    note="Trusted: loom; shim_flume (rendezvous channel, idle timeout fired by an explicit scenario step). Scenarios with 4 threads run with preemption bound 1 (quick) / 2 (thorough)."),
+ "C08": dict(engine="e_c08", design="§2/C08",
+   technique="bounded exhaustive differential exploration: every operation sequence up to depth d over small alphabets, executed on the real compio code in lock-step against synchronous OS calls, on the io_uring driver and on the polling driver (thread-pool fallback)",
+   text="Every sequence of depth <= 2-3 (quick) / 3-4 (thorough) over positional and vectored file I/O (5 offsets relative to EOF, 3 write lengths, 4 buffer shapes, 4 vectored layouts x 3 fill states, set_len, sync, metadata), all 64 OpenOptions subsets, anonymous pipes (depth 4 / 6) and the directory / whole-file helpers is run from a fresh state in three worlds: OS reference (std::fs + libc), compio on io_uring, compio on polling. After every operation results (value, ErrorKind, errno), returned buffers (length, capacity, all bytes up to capacity), metadata and the externally visible state (tree, file bytes, mode, nlink, pipe content) must be identical.",
+   note="Trusted: kernel + std/libc as reference; tmpfs ($TMPDIR=/dev/shm) so sync_* only exercises the result path; a watchdog turns a stuck operation into a Hang observation; wall guard 38 s quick / 900 s thorough (cap => exhaustive=false). Not covered: overlapping operations and cancellation (C01/C02/C05), managed-buffer reads, splice, permission errors, transfers > 4 bytes. Known findings: offset u64::MAX on io_uring, zero-capacity pipe read on polling."),
 }
 
 NOT_YET = {
@@ -84,6 +88,7 @@ def main():
         },
         "engines": [
             {"name": "e3loom", "path": "/verif/e3loom", "serves_properties": ["C03", "C04", "C06", "C17"], "kind_free_text": "loom (bounded-preemption exhaustive interleaving exploration) over the repository's own source: compio-executor via its cfg(loom), fd.rs and asyncify.rs via include! with std/flume/synchrony re-bound to loom-backed shims; each scenario in a sub-process"},
+            {"name": "e_c08", "path": "/verif/e_c08", "serves_properties": ["C08"], "kind_free_text": "differential operation-sequence explorer: OS reference vs compio on io_uring vs compio on polling (fusion driver, driver chosen at run time)"},
             {"name": "e2pure", "path": "/verif/e2pure", "serves_properties": ["C10", "C11", "C12", "C13"], "kind_free_text": "input-exhaustive / deviation-bounded explorer driving real compio-buf and compio-io code (stateless DFS with prefix replay, vcore::explore)"},
         ],
         "checks": checks,
